@@ -93,6 +93,7 @@ class Monitor:
         self.wires = None
         self.nviol = 0
         self.hist = []          # wire values seen by the clocking-phase probe, one row per clock cycle
+        self.wave_base = {}     # id(Waveform) -> number of cycles already simulated when it was last clear()ed
         self.crashed = False
 
     def scan(self, at):
@@ -161,18 +162,20 @@ class Monitor:
                     # every sample is the value the wire itself had in the clocking phase of that cycle (seen by the probe)
                     if self.crashed or id(wire) not in pos:
                         continue
-                    if len(data) != len(self.hist):
-                        self.run.violation('captured_count', dict(by=n, relation='fewer' if len(data) < len(self.hist) else 'more'), self.case,
-                                           expected=len(self.hist), observed=len(data),
-                                           what='%s: Waveform %s holds %d samples of %s after %d clock cycles' % (self.label, l.name, len(data), wire.getFullPath(), len(self.hist)))
+                    base = self.wave_base.get(id(l), 0)
+                    if len(data) != len(self.hist) - base:
+                        self.run.violation('captured_count', dict(by=n, relation='fewer' if len(data) < len(self.hist) - base else 'more', after_clear=base > 0), self.case,
+                                           expected=len(self.hist) - base, observed=len(data),
+                                           what='%s: Waveform %s holds %d samples of %s after %d clock cycles%s' % (
+                                               self.label, l.name, len(data), wire.getFullPath(), len(self.hist) - base, ' since clear()' if base else ''))
                         continue
                     k = pos[id(wire)]
                     self.stats['waveform_samples_compared'] = self.stats.get('waveform_samples_compared', 0) + len(data)
                     for t, v in enumerate(data):
-                        if v != self.hist[t][k]:
-                            self.run.violation('captured_differs_from_wire', dict(by=n), self.case, expected=self.hist[t][k], observed=v,
+                        if v != self.hist[base + t][k]:
+                            self.run.violation('captured_differs_from_wire', dict(by=n), self.case, expected=self.hist[base + t][k], observed=v,
                                                what='%s: Waveform %s recorded %r for %s (%d bits) at cycle %d, the wire held %r' % (
-                                                   self.label, l.name, v, wire.getFullPath(), w, t, self.hist[t][k]))
+                                                   self.label, l.name, v, wire.getFullPath(), w, base + t, self.hist[base + t][k]))
                             break
 
 
@@ -260,8 +263,16 @@ def observe(run, make, vectors, case, stats, label, cycles_per_vector=1):
             sim.addListener(cls['Listener'](mon.scan))
             mon.scan('construct')
             mrnd = rng(0, 'C06', 'edit', label)
-            for vec in vectors:
+            clear_at = {len(vectors) // 3, (2 * len(vectors)) // 3} if len(vectors) >= 6 else set()
+            for kvec, vec in enumerate(vectors):
                 before = rec.raw_oor
+                if kvec in clear_at:
+                    # the user empties the waveforms in mid-run; what is recorded afterwards is judged like before
+                    for l in netgen.my_leaves(hw):
+                        if type(l).__name__ == 'Waveform':
+                            l.clear()
+                            mon.wave_base[id(l)] = len(mon.hist)
+                            stats['waveform_clears'] = stats.get('waveform_clears', 0) + 1
                 edit_sources(hw, mrnd, stats)
                 for w, v in zip(ins, vec):
                     w.put(v)
@@ -449,6 +460,22 @@ def special_plans():
         out.append(('counter_wide_ctl_%d_%d' % (w, cw), _plan(dict(q=w, inc=cw, rs=cw), ['inc', 'rs'], [N('k', 'Counter', dict(reset='rs', inc='inc', q='q'))])))
         out.append(('mux2_wide_sel_%d_%d' % (w, cw), _plan(dict(s=cw, a=w, b=w, r=w), ['s', 'a', 'b'], [C('m', 'Mux2', (w, cw), ['s', 'a', 'b', 'r'])])))
         out.append(('delayline_wide_ctl_%d_%d' % (w, cw), _plan(dict(a=w, r=w, e=cw, rs=cw), ['a', 'e', 'rs'], [N('dl', 'DelayLine', dict(a='a', en='e', reset='rs', r='r'), dict(delay=2))])))
+    # narrow Div/Mod/SignedDiv whose divisor is 0 (constant, or an input that is 0 on most cycles): the library puts a random
+    # value then, which must still be in range on the result and on every wire of the Buf / Mux2 / And2 / Or2 chain behind it
+    for kind, widths in (('Div', [(1, 1, 1), (2, 2, 2), (3, 3, 3), (2, 1, 1), (3, 2, 2)]), ('Mod', [(1, 1, 1), (2, 2, 2), (3, 3, 3), (3, 1, 2)]),
+                         ('SignedDiv', [(2, 2, 2), (3, 3, 3)])):
+        for aw, bw, rw in widths:
+            for zero in ('const', 'input'):
+                wires = dict(a=aw, b=bw, r=rw, r1=rw, r2=rw, r3=rw, r4=rw, s=1, o=rw)
+                blocks = [C('dv', kind, (aw, bw, rw), ['a', 'b', 'r']), C('b1', 'Buf', (rw, rw), ['r', 'r1']), C('m', 'Mux2', (rw, 1), ['s', 'r1', 'r', 'r2']),
+                          C('b2', 'Buf', (rw, rw), ['r2', 'r3']), C('o2', 'Or2', (rw,), ['r3', 'r1', 'r4']), N('g', 'Reg', dict(d='r4', q='o', enable=None, reset=None), {}),
+                          N('cap', 'StreamCapture', dict(x='r3'))]
+                ins = ['a', 's']
+                if zero == 'const':
+                    blocks.append(C('z', 'Constant', (bw, 0), ['b']))
+                else:
+                    ins.append('b')
+                out.append(('%s_zero_divisor_%s_%d_%d_%d' % (kind.lower(), zero, aw, bw, rw), _plan(wires, ins, blocks)))
     for w in (1, 2, 5):
         out.append(('counter_%d' % w, _plan(dict(rs=1, inc=1, q=w), ['rs', 'inc'], [N('k', 'Counter', dict(reset='rs', inc='inc', q='q'), {}), N('wv', 'Waveform', dict(w0='q'))])))
         out.append(('modcounter_%d' % w, _plan(dict(rs=1, inc=1, q=w, co=1), ['rs', 'inc'], [N('k', 'ModuloCounter', dict(reset='rs', inc='inc', q='q', carryout='co'), dict(mod=(1 << w) + 1))])))
@@ -459,7 +486,7 @@ def special_plans():
     return out
 
 
-def plan_case(run, name, plan, rnd, stats, workload, n_cycles=None, raw=True):
+def plan_case(run, name, plan, rnd, stats, workload, n_cycles=None, raw=True, zero_bias=False):
     ws = {w['id']: w['w'] for w in plan['wires']}
     widths = [ws[i] for i in plan['inputs']]
     vecs = extreme_vectors(widths, rnd, n_random=3, raw=raw)
@@ -468,6 +495,9 @@ def plan_case(run, name, plan, rnd, stats, workload, n_cycles=None, raw=True):
             vecs.append(tuple(rnd.getrandbits(w) for w in widths))
     if not widths:
         vecs = [()] * (n_cycles or 12)
+    if zero_bias:
+        # the last input (a divisor) is 0 on most cycles
+        vecs = [tuple(v[:-1]) + ((0,) if k % 4 else (v[-1],)) for k, v in enumerate(vecs)]
 
     def make():
         b = netgen.build(plan)
@@ -630,7 +660,7 @@ def run_check(run, tier, seed, shard):
     sp = special_plans()
     for k in shard_slice(range(len(sp)), shard):
         name, plan = sp[k]
-        pv = plan_case(run, name, plan, rng(seed, 'C06', 'special', name), stats, 'special', n_cycles=130 if '_counter_' in name else 14)
+        pv = plan_case(run, name, plan, rng(seed, 'C06', 'special', name), stats, 'special', n_cycles=130 if '_counter_' in name else (60 if '_zero_divisor_' in name else 14), zero_bias=('_zero_divisor_input' in name))
         if pv is None:
             run.inconclusive.append('special design %s did not build' % name)
         elif k % 23 == 0:
@@ -700,6 +730,7 @@ def post_merge(run, tier, seed):
                    ('events_put', 'no put event'), ('captured_values', 'no StreamCapture/Waveform value was inspected'),
                    ('source_edits_Constant', 'no Constant.value was reassigned between clock calls'), ('source_edits_Sequence', 'no Sequence data was edited between clock calls'),
                    ('nonint_stimuli', 'no non-integer stimulus was offered to a wire'), ('nonint_refused', 'no non-integer was refused (nothing decided about them)'),
+                   ('waveform_clears', 'no Waveform was cleared in mid-run'),
                    ('waveform_samples_compared', 'no Waveform sample was compared with the live wire'),
                    ('watch_repeated_wires', 'no Waveform watch list with a repeated wire'), ('watch_ports_of_listed_wires', 'no watch list with a wire and one of its ports')):
         if not c.get(k):
